@@ -303,7 +303,7 @@ impl Property for C19 {
     }
 
     fn rule() -> &'static str {
-        "one evaluation = one seeded (options, argument list, read plan, child-outcome script) scenario run through xargs_main; the outcome script is the fault sequence (exit 0 / 1..125 / 255, death by signal with or without core, spawn errors ENOENT/EACCES/ENOEXEC/ENOMEM/EAGAIN/E2BIG/ETXTBSY at every position), plus xargs' own errors (bad option values, unterminated quote, oversize argument) and a calibration slice with real child processes; also replace mode, empty input, a quote as last byte, out-of-range numeric -d escapes, -x -L 1 overflow inside a line, a decoy file named like the command in the current directory; distinct = distinct abstract trace (read results, spawn arities and outcome classes, exit status); non-trivial = some child outcome other than exit 0, a read fault, or an own-error scenario"
+        "one evaluation = one seeded (options, argument list, read plan, child-outcome script) scenario run through xargs_main; the outcome script is the fault sequence (exit 0 / 1..125 / 255, death by signal with or without core, spawn errors ENOENT/EACCES/ENOEXEC/ENOMEM/EAGAIN/E2BIG/ETXTBSY at every position), plus xargs' own errors (bad option values, unterminated quote, oversize argument) and a calibration slice with real child processes; also replace mode, empty input, a quote as last byte, out-of-range numeric -d escapes, -x -L 1 overflow inside a line, a decoy file named like the command in the current directory; environment variables nobody should listen to in an eighth of the runs; a slice of the scenarios also goes through the real xargs executable (standard input a pipe, a regular file, a regular file read from an offset); distinct = distinct abstract trace (read results, spawn arities and outcome classes, exit status); non-trivial = some child outcome other than exit 0, a read fault, or an own-error scenario"
     }
 
     fn components() -> Value {
